@@ -67,6 +67,20 @@ CLAIMED = {
          "Every ordered pair of the finite universe named by the property is evaluated against a truth table written from the statement, through the constructor, through the token/terminal parser and through the candidate filter; symmetry and weight-independence are checked on the same pairs. Exhaustive over that universe, so for this universe the check decides the property.",
          "Trusted: the truth table in gbsv/checks/c03.py (ids compared numerically, none and '-' are single bonds).", "DESIGN.md §2 C03"),
 }
+# additions of the extension phase (appended to the level text)
+MORE = {
+ "C01": " Numbers are written in every float syntax Python reads (3, 3.0, .5, 03, 3e0, 3.e2, 5.E-01, 3E0, 30.0e-01).",
+ "C02": " Numbers are written in every float syntax Python reads (3, 3.0, .5, 03, 3e0, 3.e2, 5.E-01, 3E0, 30.0e-01).",
+ "C09": " Isotope-labelled repeat units are included; a wall-clock cap per sample only reduces the sample, never decides.",
+ "C10": " Extension: one engine executes the operations for the machine and for --replay (literal histories, shrunk by ddmin); System objects (seeded single generation and complete ensembles against the baseline, abandoned iterations), shallow/deep copies, generation from the mirrored molecule, ensemble probability and force-field typing as perturbing operations; the string pool contains placement isomers (same fragment and descriptor texts, different attachment atoms) so that anything remembered under too coarse a key collides.",
+ "C11": " Extension: every quantile of the draw - a scripted uniform stream (numpy Generator subclass answering uniform / standard_normal / poisson with the q-quantile of the primitive) over a grid of 212 (quick) / 2012 (thorough) quantiles with both tails to 1e-7 must give F_ref(x) >= q > F_ref(x-1) (discrete) resp. |F_ref(x) - q| <= 1e-6 (continuous); point probabilities are compared with the documented formula pointwise; Schulz-Zimm tolerances are the discretisation error computed from the documented density, not a 1/Mn bound; values of zero documented probability are outside the support.",
+ "C13": " Extension: two iterations of the same object alive at once (alternately advanced, each must equal its solo run); one-component systems are re-run with the system mass 2e-6 and 3e-9 (relative) above and below a partial sum of the member sequence (near-ties of the stop rule).",
+ "C14": " Extension: systems of 2-3 polymer components (five polymers x nine distributions, small molecules mixed in, half of them blends of two grades of the same polymer, i.e. identical text apart from the distribution) with membership decided by residue tags and a 6-sigma band from the measured size-biased member mass; a second ensemble of the same object advanced alternately.",
+ "C15": " Extension: 18th operator at call level - generate(prefix=...) without the prefix or with a differing one, also after 1-2 correct calls on the same object; descriptors written between two atoms also carry weights in every float syntax.",
+ "C16": " The graph is also built after generations, other reaction graphs and atom graphs on the same object.",
+ "C17": " The graph is also built after other graphs / generations on the same object and generate() is repeated on the same graph object.",
+ "C19": " Extension: 1-3 blocks are really explored (means of 1.3-3 units for multi-block chains, tails accounted for in the tolerance); neighbouring blocks with the same repeat unit are included and the reference is summed over all splits that build the same molecule (grouping by canonical SMILES); foreign molecules that are members through another split are recognised.",
+}
 NOT_YET = "check not built yet in this session (planned in DESIGN.md §2); not claimed until it runs clean on the unchanged tree"
 
 checks, na = [], []
@@ -74,6 +88,7 @@ for p in props:
     pid = p["id"]
     if pid in CLAIMED:
         tech, text, note, ref = CLAIMED[pid]
+        text = text + MORE.get(pid, "")
         checks.append({
             "property_id": pid,
             "quick_cmd": f"./check {pid} --tier quick",
